@@ -803,6 +803,72 @@ def check_section_grammar(chk, tu):
         paths = [p for p in it.explore(setup) if not p.aborted]
         return paths
 
+    def section_bytes(toks, padded):
+        from .. import bytedecode
+        out = []
+        for t, v in toks:
+            if t == 'name':
+                out += bytedecode.encode([('u32', len(v))], padded) + [ord(ch) for ch in v]
+            elif t == 'constexpr':
+                out += [0x41] + bytedecode.encode([('i32', 0)], padded) + [0x0B]
+            else:
+                out += bytedecode.encode([(t, v & 0xFFFFFFFF if t == 'i32' else v)], padded)
+        return out
+
+    def run_bytes(fn, toks, pre, padded):
+        """the section reader on the real bytes of the token script, with the real decoders (only names and constant expressions are
+        modelled: a name is a LEB128 length and that many bytes, a constant expression ends at its 0x0B)"""
+        raw = section_bytes(toks, padded)
+
+        def take_u32(interp, b):
+            # decode one (possibly padded) unsigned LEB128 from the buffer record b
+            val = shift = 0
+            while True:
+                if b['length'] <= 0:
+                    return None
+                byte = interp.load(b['data'].c, b['data'].k)
+                b['data'] = Ptr(b['data'].c, b['data'].k + 1)
+                b['length'] -= 1
+                val |= (byte & 0x7F) << shift
+                shift += 7
+                if not byte & 0x80:
+                    return val
+
+        def name_bytes(interp, args, node):
+            b = interp.load(args[0].c, args[0].k)
+            n_ = take_u32(interp, b)
+            if n_ is None or n_ > b['length']:
+                return 0
+            text = ''.join(chr(interp.load(b['data'].c, b['data'].k + i)) for i in range(n_))
+            b['data'] = Ptr(b['data'].c, b['data'].k + n_)
+            b['length'] -= n_
+            interp.store(args[1].c, args[1].k, text)
+            return 1
+
+        def constexpr_bytes(interp, args, node):
+            b = interp.load(args[0].c, args[0].k)
+            while b['length'] > 0:
+                byte = interp.load(b['data'].c, b['data'].k)
+                b['data'] = Ptr(b['data'].c, b['data'].k + 1)
+                b['length'] -= 1
+                if byte == 0x0B:
+                    return 1
+            return 0
+        leafs = dict(emit.base_leafs())
+        leafs.update({'wasmReadName': name_bytes, 'wasmReadConstantExpr': constexpr_bytes})
+        it = pe.Interp([tu], leafs)
+        it.loop_abort = True
+
+        def setup():
+            mod = it.zero_init('struct WasmModule')
+            if pre:
+                pre(mod, it)
+            rd = {'v': {'buffer': {'data': Ptr(list(raw) + [0, 0, 0, 0], 0), 'length': len(raw)}, 'module': Ptr({'m': mod}, 'm'), 'debug': 0}}
+            err = {'v': unk('err')}
+            return (fn, [Ptr(rd, 'v'), 0, Ptr(err, 'v')], {'mod': mod, 'err': err, 'rd': rd})
+        paths = [p for p in it.explore(setup) if not p.aborted]
+        return paths, raw
+
     def arr(p, n):
         if isinstance(p, Ptr) and isinstance(p.c, list):
             return p.c[p.k:p.k + n]
@@ -868,10 +934,34 @@ def check_section_grammar(chk, tu):
         chk.fn(fn)
         site = fn + ':grammar'
         n += 1
+        # byte level (second decision, and the decision when the token model does not fit): the reader on the real bytes of the script,
+        # minimal and padded LEB128 encodings - both accepted, both decoded to the module the grammar prescribes, all bytes consumed
+        byte_bad = None
+        for padded in (False, True):
+            try:
+                bps, raw = run_bytes(fn, toks, pre, padded)
+            except pe.PEError as e:
+                raise AnalysisBroken('R08.8 %s on bytes: %s' % (fn, e))
+            okb = [p for p in bps if p.state['err']['v'] == 0]
+            enc_ = '%s encoding %s' % ('padded' if padded else 'minimal', ' '.join('%02x' % x for x in raw))
+            if len(okb) != 1:
+                byte_bad = '%s rejects the %s of a valid section (%d paths, %d successful)' % (fn, enc_, len(bps), len(okb))
+                break
+            left = okb[0].state['rd']['v']['buffer']['length']
+            try:
+                gotb = view(okb[0].state['mod'])
+            except Exception as e:
+                gotb = 'unreadable (%s)' % e
+            if gotb != want or left != 0:
+                byte_bad = '%s reads the %s as %r with %r bytes left; the binary grammar gives %r' % (fn, enc_, gotb, left, want)
+                break
+        chk.expect(byte_bad is None, 'R08.8', fn + ':bytes', '%s' % byte_bad, site,
+                   detail_ok='minimal and padded byte encodings of the section decode to the module the grammar prescribes')
         try:
             paths = run(fn, toks, pre)
         except emit.ScriptMismatch as e:
-            chk.fail('R08.8', fn + ':decoders', '%s: %s (token script of the section grammar: %r)' % (fn, e, toks), site)
+            if byte_bad is None:
+                chk.undecide('%s: %s - outside the token model of the decoders; the byte-level evaluation of the section agrees with the grammar' % (fn, e))
             continue
         except pe.PEError as e:
             raise AnalysisBroken('R08.8 %s: %s' % (fn, e))
